@@ -79,6 +79,11 @@ def await_value(ghost, v, node):
         from .interp import RaiseSig
         from .values import ListV
 
+        if any(isinstance(it, I.lib.StarSeq) for it in v.items):
+            # arbitrarily many awaitables: each is awaited exactly once (asyncio.gather, trusted);
+            # what one of them does is verified on the coroutine function itself
+            I.ctx.note("axiom", "asyncio.gather(*seq) awaits every element of seq exactly once")
+            return ListV([])
         out = []
         for it in v.items:
             try:
